@@ -402,8 +402,15 @@ class Gen:
         elif k < 0.25:
             cs.append("(nothingon %s)" % " ".join(self.ident() for _ in range(r.randrange(1, 3))))
         elif k < 0.6:
-            for _ in range(r.randrange(1, 3)):
-                cs.append(r.choice(["(updcol %s)" % self.ident(), "(updexpr %s %s)" % (self.ident(), self.expr(d))]))
+            if r.random() < 0.3:
+                # several columns, one of them assigned twice (the list is written as given, in call order)
+                cols = [self.ident() for _ in range(r.randrange(2, 5))]
+                cols.insert(r.randrange(len(cols) + 1), r.choice(cols))
+                for c in cols:
+                    cs.append(r.choice(["(updcol %s)" % c, "(updexpr %s %s)" % (c, self.expr(d))]))
+            else:
+                for _ in range(r.randrange(1, 3)):
+                    cs.append(r.choice(["(updcol %s)" % self.ident(), "(updexpr %s %s)" % (self.ident(), self.expr(d))]))
             if r.random() < 0.3:
                 cs.append("(awhere %s)" % self.expr(d))
         elif k < 0.92:
